@@ -90,7 +90,7 @@ func NewFastHTTPHandler(h http.Handler) fasthttp.RequestHandler {
 			// Buffered, no Flush() nor Hijack().
 			ctx.SetStatusCode(w.status())
 			haveContentType := false
-			for k, vv := range w.Header() {
+			for k, vv := range w.responseHeader() {
 				if k == fasthttp.HeaderContentType {
 					haveContentType = true
 				}
@@ -119,7 +119,7 @@ func NewFastHTTPHandler(h http.Handler) fasthttp.RequestHandler {
 			ctx.SetStatusCode(w.status())
 
 			haveContentType := false
-			for k, vv := range w.Header() {
+			for k, vv := range w.responseHeader() {
 				// No Content-Length when streaming.
 				if k == fasthttp.HeaderContentLength {
 					continue
@@ -201,7 +201,9 @@ const (
 type writer struct {
 	ctx        *fasthttp.RequestCtx
 	h          http.Header
+	committedH http.Header // snapshot of h taken when the response was committed
 	statusCode atomic.Int64
+	committed  atomic.Bool
 
 	mu           sync.Mutex
 	responseBody []byte
@@ -250,10 +252,37 @@ func (w *writer) WriteHeader(code int) {
 	if code < 100 || code > 999 {
 		panic(fmt.Sprintf("invalid WriteHeader code %v", code))
 	}
-	w.statusCode.CompareAndSwap(0, int64(code))
+	// Like net/http: informational headers don't commit the response,
+	// a later WriteHeader still chooses the final status code.
+	if code >= 100 && code <= 199 && code != http.StatusSwitchingProtocols {
+		return
+	}
+	w.commit(code)
+}
+
+// commit freezes the status code and the headers like net/http does on the first
+// non-informational WriteHeader, Write or Flush call: later WriteHeader calls and
+// later changes of the header map don't affect the response.
+// code 0 means that the status code has been chosen implicitly.
+func (w *writer) commit(code int) {
+	if !w.committed.CompareAndSwap(false, true) {
+		return
+	}
+	w.statusCode.Store(int64(code))
+	w.committedH = w.h.Clone()
+}
+
+// responseHeader returns the headers to send.
+func (w *writer) responseHeader() http.Header {
+	if w.committed.Load() {
+		return w.committedH
+	}
+	return w.h
 }
 
 func (w *writer) Write(p []byte) (int, error) {
+	w.commit(0)
+
 	select {
 	case <-w.streamReady:
 		return w.pw.Write(p)
@@ -278,6 +307,8 @@ func (w *writer) Write(p []byte) (int, error) {
 }
 
 func (w *writer) Flush() {
+	w.commit(0)
+
 	w.flushOnce.Do(func() {
 		select {
 		case w.modeCh <- modeFlushed:
